@@ -22,6 +22,13 @@ Monitors
   slc       HfProtocol.initiate_slc against AgProtocol over such a DLC for enumerated and random
             feature / indicator / codec / call-hold configurations: completes, and both ends
             hold what the configurations imply (computed here, not by bumble)
+  codec     codec connection set-up after the SLC with one side played by hand (scripted AG against HfProtocol with its
+            run loop, scripted HF against AgProtocol) and back to back with a gateway application that refuses: the
+            selection +BCS is confirmed and answered OK / ERROR / +CME ERROR / not at all / ERROR after the HF's
+            time-out, an unusable codec is selected (AT+BAC re-advertisement), the HF asks with AT+BCC (OK / ERROR /
+            silence), the HF confirms another or an invalid ID or sends nothing; after every step both sides hold the
+            SAME active codec (the scripted side commits only on the OK), codec_negotiation is emitted exactly for
+            completed set-ups, and a later set-up still completes
   at        on the AG's DLC every command line is followed by exactly one final result code
             before the next line is answered (b2b during SLC, and a hand-driven raw DLC peer
             sending every command with nominal / +1 / -1 / empty parameters)
@@ -56,6 +63,9 @@ ASSUMPTIONS = [
     'sinks are attached as soon as a DLC exists, so the 32-packet pre-sink queue is not part of the stream clause',
     'AG configurations list at least one AG indicator (an AG without indicators may refuse AT+CIND)',
     'a line that is not an AT command at all need not be answered, but must not stop later commands being answered',
+    'codec connection set-up (HFP 4.11.3): the codec connection exists once the AG has answered the HF\'s AT+BCS=<id> with OK; '
+    'a side whose confirmation was refused, never answered, or answered after its own time-out keeps the codec it had; an '
+    'application that gave up on negotiate_codec() (task cancelled) may call it again',
     'the information-field bound is the one in the task statement: min(peer N1, peer L2CAP MTU - 5), one less when '
     'the frame carries a credit octet',
 ]
@@ -66,14 +76,24 @@ MIN_EVENTS = {
               'refusals': 400, 'dm_frames_received_by_initiator': 300, 'opens_after_refusal': 250,
               'refuse_state_checks': 1200, 'refuse_exchanges': 400, 'mux_disc_frames_on_wire': 200,
               'hf_commands_after_refusal': 800, 'hf_concurrent_command_groups': 150,
-              'sink_installed_after_data_and_replaced': 100},
+              'sink_installed_after_data_and_replaced': 100,
+              'codec_steps': 400, 'codec_agreement_checks': 350, 'codec_real_hf_confirmation_refused': 60,
+              'codec_real_hf_confirmation_unanswered': 25, 'codec_real_hf_confirmation_answered_ok': 120,
+              'codec_bac_renegotiations': 35, 'codec_hf_bcc': 50, 'codec_bcs_unanswered_by_hf': 6, 'codec_negotiate_codec_calls_after_abandoned_one': 30,
+              'codec_runs_hf_vs_scripted_ag': 40, 'codec_runs_ag_vs_scripted_hf': 40,
+              'codec_runs_both_real': 40},
     'thorough': {'stream_checks': 8000, 'ledger_data_frames': 600000, 'ledger_credit_octets_received': 20000,
                  'fcs_checked': 600000, 'state_checks': 8000, 'slc_runs': 2000, 'slc_agreement_checks': 12000,
                  'at_lines_checked': 30000, 'pn_exchanges': 12000, 'dlc_invariant_evals': 1000000,
                  'refusals': 2000, 'dm_frames_received_by_initiator': 1500, 'opens_after_refusal': 1200,
                  'refuse_state_checks': 6000, 'refuse_exchanges': 2000, 'mux_disc_frames_on_wire': 1000,
                  'hf_commands_after_refusal': 3500, 'hf_concurrent_command_groups': 700,
-                 'sink_installed_after_data_and_replaced': 500},
+                 'sink_installed_after_data_and_replaced': 500,
+                 'codec_steps': 3200, 'codec_agreement_checks': 2800, 'codec_real_hf_confirmation_refused': 480,
+                 'codec_real_hf_confirmation_unanswered': 200, 'codec_real_hf_confirmation_answered_ok': 1000,
+                 'codec_bac_renegotiations': 280, 'codec_hf_bcc': 400, 'codec_bcs_unanswered_by_hf': 50, 'codec_negotiate_codec_calls_after_abandoned_one': 240,
+                 'codec_runs_hf_vs_scripted_ag': 330, 'codec_runs_ag_vs_scripted_hf': 330,
+                 'codec_runs_both_real': 330},
 }
 CASE_TIMEOUT = 600
 
@@ -125,6 +145,8 @@ def plan(tier, seed):
         cases.append({'kind': 'agraw', 'seed': base + i, 'idx': i, 'tier': tier})
     for i in range(16 if q else 200):
         cases.append({'kind': 'hfraw', 'seed': base + i, 'idx': i, 'tier': tier})
+    for i in range(144 if q else 1200):
+        cases.append({'kind': 'codec', 'seed': base + i, 'idx': i, 'tier': tier})
     only = os.environ.get('C20_ONLY')      # development aid; a partial run ends INCONCLUSIVE through MIN_EVENTS
     if only:
         cases = [c for c in cases if c['kind'] in only.split(',')]
@@ -1538,7 +1560,523 @@ async def hfraw(case, r: R):
     r.sample = {'kind': 'hfraw', 'cfg': cfg, 'unsolicited_before': junk, 'commands_seen': seen[:12]}
 
 
-KINDS = {'xfer': xfer, 'life': life, 'refuse': refuse, 'slc': slc, 'agraw': agraw, 'hfraw': hfraw}
+
+# =============================================================================
+# kind 'codec': codec connection set-up refused, unanswered, re-negotiated; one side scripted
+# =============================================================================
+# HFP 1.8 section 4.11.3: the AG selects with the unsolicited +BCS: <id>; the HF confirms with AT+BCS=<id> (or, when it
+# cannot use <id>, re-advertises its codecs with AT+BAC); the codec connection exists once the AG has answered that
+# AT+BCS with OK.  Until then both sides keep the codec they had (CVSD before the first set-up).  The scripted side
+# below follows exactly that; the expected codec of the real side is the scripted side's.
+CODEC_ANSWERS = ['ok', 'error', 'cme', 'silent', 'late-error']
+ANSWER_CLASS = {'ok': 'bcs-answered-ok', 'error': 'bcs-answered-error', 'cme': 'bcs-answered-cme-error',
+                'silent': 'bcs-unanswered', 'late-error': 'bcs-answered-error-after-timeout'}
+
+
+class ScriptedAg:
+    """The audio gateway played by hand on a raw DLC: command lines in, result codes out."""
+
+    def __init__(self, raw, cfg, exp_ag, space, rng):
+        self.raw, self.cfg, self.exp_ag, self.space, self.rng = raw, cfg, exp_ag, space, rng
+        self.seen = []
+        self.rxb = bytearray()
+        self.codec = 1                  # CVSD until a codec connection set-up completes
+        self.hf_codecs = None           # what the HF advertised with AT+BAC
+        self.bcs_answer = 'ok'
+        self.bac_answer = 'ok'
+        self.bcc_answer = 'ok'
+        raw.sink = self.on_data
+
+    def rsp(self, *lines):
+        self.raw.write(''.join(f'\r\n{l}\r\n' for l in lines).encode())
+
+    def final(self, how):
+        if how == 'ok':
+            self.rsp('OK')
+        elif how == 'error':
+            self.rsp('ERROR')
+        elif how == 'cme':
+            self.rsp('+CME ERROR: 30')
+        elif how == 'late-error':
+            asyncio.get_running_loop().call_later(2.5, lambda: self.rsp('ERROR'))
+        # 'silent': nothing
+
+    def on_data(self, data):
+        cfg, space = self.cfg, self.space
+        self.rxb.extend(data)
+        while (i := self.rxb.find(b'\r')) >= 0:
+            line = bytes(self.rxb[:i]).decode()
+            del self.rxb[:i + 1]
+            self.seen.append(line)
+            if line.startswith('AT+BRSF='):
+                self.rsp(f'+BRSF:{space}{self.exp_ag}', 'OK')
+            elif line == 'AT+CIND=?':
+                self.rsp('+CIND:' + space + ','.join('("%s",(%s))' % (n, ','.join(map(str, v))) for n, v, _c in cfg['ag_indicators']), 'OK')
+            elif line == 'AT+CIND?':
+                self.rsp('+CIND:' + space + ','.join(str(c) for _n, _v, c in cfg['ag_indicators']), 'OK')
+            elif line == 'AT+CHLD=?':
+                self.rsp(f'+CHLD:{space}({",".join(cfg["chld"])})', 'OK')
+            elif line == 'AT+BIND=?':
+                self.rsp(f'+BIND:{space}({",".join(map(str, cfg["ag_hf_indicators"]))})', 'OK')
+            elif line == 'AT+BIND?':
+                self.rsp(*[f'+BIND:{space}{i},1' for i in cfg['ag_hf_indicators']], 'OK')
+            elif line.startswith('AT+BAC='):
+                if self.bac_answer == 'ok':
+                    self.hf_codecs = [int(x) for x in line[7:].split(',') if x]
+                self.final(self.bac_answer)
+            elif line.startswith('AT+BCS='):
+                if self.bcs_answer == 'ok':
+                    self.codec = int(line[7:])      # the codec connection is set up by this OK
+                self.final(self.bcs_answer)
+            elif line == 'AT+BCC':
+                self.final(self.bcc_answer)
+            else:
+                self.rsp('OK')
+
+
+def codec_name(c):
+    return {1: 'CVSD', 2: 'mSBC', 3: 'LC3-SWB'}.get(int(c), str(int(c)))
+
+
+async def codec_hf_vs_scripted_ag(case, r: R, rng):
+    from bumble import hfp
+    cfg = gen_hfp(rng, rng.randrange(64) | 0x01)
+    cfg['hf_features'] = list(dict.fromkeys(cfg['hf_features'] + ['CODEC']))
+    cfg['ag_features'] = list(dict.fromkeys(cfg['ag_features'] + ['CODEC']))
+    cfg['hf_codecs'] = rng.choice([[1, 2], [2, 1], [1, 2, 3], [1, 2], [2], [1, 3]])
+    cfg['chld'] = cfg['chld'] or ['1', '2']
+    cfg['ag_hf_indicators'] = cfg['ag_hf_indicators'] or [1]
+    rg, s, cd, sd, info = await hfp_link(case, rng, r)
+    hf_conf, _ = build_hfp_configs(cfg)
+    raw, hfd = (cd, sd) if rng.random() < 0.5 else (sd, cd)
+    hf = hfp.HfProtocol(hfd, hf_conf)
+    ag = ScriptedAg(raw, cfg, sum(AG_BITS[n] for n in cfg['ag_features']), rng.choice([' ', '']), rng)
+    events = []
+    hf.on('codec_negotiation', lambda c: events.append(int(c)))
+    try:
+        how, e = await vloop.vwait(guarded(hf.initiate_slc()))
+    except vloop.Hang:
+        r.bad('slc/hang/raw-ag', f'initiate_slc pending at T_v; cfg={cfg}')
+        return
+    if how != 'ok':
+        r.bad('slc/raised/raw-ag/codec-negotiation', f'initiate_slc raised {type(e).__name__}: {e}; AG saw {ag.seen}; cfg={cfg}')
+        return
+    r.ev('slc_runs')
+    r.ev('oracle_evals')
+    if ag.hf_codecs != cfg['hf_codecs']:
+        r.bad('slc/disagree/codec-list/raw-ag', f'HF codecs {cfg["hf_codecs"]}, the gateway was told {ag.hf_codecs} (lines {ag.seen})')
+    task = asyncio.create_task(hf.run())
+    usable = cfg['hf_codecs']
+    unusable = [c for c in (1, 2, 3) if c not in usable]
+    steps = []
+    for _ in range(rng.randint(2, 5)):
+        c = rng.random()
+        if c < 0.62:
+            steps.append(('select', rng.choice(usable), rng.choice(CODEC_ANSWERS)))
+        elif c < 0.78 and unusable:
+            steps.append(('select-unusable', rng.choice(unusable), rng.choice(['ok', 'ok', 'error'])))
+        else:
+            steps.append(('hf-bcc', rng.choice(usable), rng.choice(['ok', 'ok', 'error', 'silent'])))
+    steps.append(('select', rng.choice(usable), 'ok'))       # after whatever was refused, a set-up still completes
+    prev = 'slc'
+    history = []
+
+    def detail():
+        return f'steps so far {history}; HF codecs {usable}; HF on the {"client" if hfd is cd else "server"} DLC; link={info}'
+
+    async def settle(wait):
+        await rg.quiesce()
+        if wait:
+            await asyncio.sleep(wait)
+            await rg.quiesce()
+
+    def judge(step_cls, completed, lines, want_lines):
+        """after one step: same codec on both sides, event only for a completed set-up, HF usable"""
+        r.ev('codec_agreement_checks')
+        r.ev('oracle_evals', 3)
+        if lines != want_lines:
+            r.bad(f'hfp/codec/hf-commands/{step_cls}/after-{prev}',
+                  f'the HF sent {lines}, the procedure calls for {want_lines}; {detail()}')
+            return False
+        if int(hf.active_codec) != ag.codec:
+            r.bad(f'hfp/codec/disagree/hf-vs-scripted-ag/{step_cls}',
+                  f'HF active_codec={codec_name(hf.active_codec)}, the gateway is on {codec_name(ag.codec)} '
+                  f'(it {"answered OK to" if completed else "never confirmed"} {lines}); {detail()}')
+            return False
+        want_events = [ag.codec] if completed else []
+        if events != want_events:
+            r.bad(f'hfp/codec/event/{"missing" if completed else "for-a-set-up-that-did-not-complete"}/{step_cls}',
+                  f'codec_negotiation events at the HF: {[codec_name(c) for c in events]}, expected '
+                  f'{[codec_name(c) for c in want_events]}; {detail()}')
+            return False
+        if hf.pending_command is not None or not hf.response_queue.empty():
+            r.bad(f'at/hf-state-left-behind/after-{step_cls}',
+                  f'pending_command={hf.pending_command!r}, {hf.response_queue.qsize()} result codes queued; {detail()}')
+            return False
+        return True
+
+    for kind, cid, answer in steps:
+        del events[:]
+        n0 = len(ag.seen)
+        r.ev('codec_steps')
+        r.ev(f'codec_step_{kind}')
+        history.append((kind, codec_name(cid), answer))
+        wait = 4.0 if answer in ('silent', 'late-error') else 0
+        if kind == 'select':
+            ag.bcs_answer = answer
+            ag.rsp(f'+BCS:{ag.space}{cid}')
+            await settle(wait)
+            r.ev('codec_bcs_' + answer.replace('-', '_'))
+            r.ev('codec_real_hf_confirmation_' + ('answered_ok' if answer == 'ok' else 'unanswered' if answer == 'silent' else 'refused'))
+            ok = judge(ANSWER_CLASS[answer], answer == 'ok', ag.seen[n0:], [f'AT+BCS={cid}'])
+        elif kind == 'select-unusable':
+            ag.bac_answer = answer
+            ag.rsp(f'+BCS:{ag.space}{cid}')
+            await settle(0)
+            ag.bac_answer = 'ok'
+            r.ev('codec_bac_renegotiations')
+            ok = judge('unusable-codec-selected/bac-answered-' + answer, False, ag.seen[n0:],
+                       ['AT+BAC=' + ','.join(map(str, usable))])
+        else:
+            ag.bcc_answer, ag.bcs_answer = answer, 'ok'
+            r.ev('codec_hf_bcc')
+            try:
+                how, val = await vloop.vwait(guarded(hf.setup_audio_connection()))
+            except vloop.Hang:
+                r.bad('hfp/codec/hang/setup_audio_connection', f'pending at T_v; {detail()}')
+                break
+            r.ev('oracle_evals')
+            if (how == 'ok') != (answer == 'ok'):
+                r.bad(f'hfp/codec/bcc-outcome/bcc-answered-{answer}', f'setup_audio_connection -> {how} {val!r}; {detail()}')
+                break
+            if answer == 'ok':
+                ag.rsp(f'+BCS:{ag.space}{cid}')     # the gateway starts the codec connection set-up it agreed to
+            await settle(0)
+            ok = judge(f'hf-requested/bcc-answered-{answer}', answer == 'ok', ag.seen[n0:],
+                       ['AT+BCC'] + ([f'AT+BCS={cid}'] if answer == 'ok' else []))
+        if not ok:
+            break
+        prev = kind if kind != 'select' else ANSWER_CLASS[answer]
+    hf.unsolicited_queue.put_nowait(None)
+    try:
+        await vloop.vwait(guarded(task))
+    except vloop.Hang:
+        r.bad('hfp/codec/hang/hf-run-loop', f'HfProtocol.run did not end; {detail()}')
+    r.sig('codec', 'hf', tuple(steps), tuple(usable))
+    r.sched.add(rg.schedule_signature)
+    r.evals()
+    r.sample = {'kind': 'codec', 'mode': 'hf-vs-scripted-ag', 'steps': history, 'hf_codecs': usable, 'lines': ag.seen[-8:]}
+
+
+async def codec_ag_vs_scripted_hf(case, r: R, rng):
+    from bumble import hfp
+    cfg = gen_hfp(rng, rng.randrange(64) | 0x02)
+    cfg['ag_features'] = list(dict.fromkeys(cfg['ag_features'] + ['CODEC']))
+    cfg['ag_indicators'] = cfg['ag_indicators'] or [('call', [0, 1], 0)]
+    rg, s, cd, sd, info = await hfp_link(case, rng, r)
+    _hf_conf, ag_conf = build_hfp_configs(cfg)
+    raw, agd = (cd, sd) if rng.random() < 0.6 else (sd, cd)
+    ag = hfp.AgProtocol(agd, ag_conf)
+    rx = bytearray()
+    raw.sink = rx.extend
+    events, requests = [], []
+    ag.on('codec_negotiation', lambda c: events.append(int(c)))
+    ag.on('codec_connection_request', lambda: requests.append(1))
+    hf_codecs = rng.choice([[1, 2], [1, 2, 3], [2, 1], [2]])
+    hf_codec = [1]                       # the scripted HF: CVSD until the gateway answers one of its AT+BCS with OK
+    history = []
+
+    def detail():
+        return f'steps so far {history}; scripted HF advertised {hf_codecs}; link={info}'
+
+    async def send(line):
+        del rx[:]
+        raw.write(line.encode() + b'\r')
+        await rg.quiesce()
+        return split_results(rx)
+
+    hf_bits = HF_BITS['CODEC'] | rng.choice([0, HF_BITS['VOLUME'], HF_BITS['CLI'] | HF_BITS['VR']])
+    for line in (f'AT+BRSF={hf_bits}', 'AT+BAC=' + ','.join(map(str, hf_codecs)), 'AT+CIND=?', 'AT+CIND?', 'AT+CMER=3,0,0,1'):
+        res = await send(line)
+        if [t for t in res if is_final(t)] != ['OK']:
+            r.bad('slc/raised/raw-hf/codec-negotiation', f'the AG answered {line!r} with {res}; cfg={cfg}')
+            return
+    r.ev('slc_runs')
+
+    def judge(step_cls, completed):
+        r.ev('codec_agreement_checks')
+        r.ev('oracle_evals', 2)
+        if int(ag.active_codec) != hf_codec[0]:
+            r.bad(f'hfp/codec/disagree/ag-vs-scripted-hf/{step_cls}',
+                  f'AG active_codec={codec_name(ag.active_codec)}, the hands-free is on {codec_name(hf_codec[0])}; {detail()}')
+            return False
+        want = [hf_codec[0]] if completed else []
+        if events != want:
+            r.bad(f'hfp/codec/event/{"missing" if completed else "for-a-set-up-that-did-not-complete"}/ag/{step_cls}',
+                  f'codec_negotiation events at the AG: {[codec_name(c) for c in events]}, expected '
+                  f'{[codec_name(c) for c in want]}; {detail()}')
+            return False
+        return True
+
+    steps = []
+    for _ in range(rng.randint(2, 5)):
+        c = rng.random()
+        if c < 0.7:
+            steps.append(('ag-select', rng.choice(hf_codecs), rng.choice(['confirm', 'confirm', 'other-id', 'bac', 'silent', 'invalid-id'])))
+        elif c < 0.85:
+            steps.append(('hf-bcc', 0, ''))
+        else:
+            steps.append(('hf-bcs-unasked', rng.choice(hf_codecs), ''))
+    steps.append(('ag-select', rng.choice(hf_codecs), 'confirm'))
+    abandoned = False
+    for kind, cid, reply in steps:
+        del events[:]
+        history.append((kind, codec_name(cid) if cid else '-', reply))
+        r.ev('codec_steps')
+        r.ev(f'codec_step_{kind}')
+        if kind == 'hf-bcc':
+            n = len(requests)
+            res = await send('AT+BCC')
+            r.ev('codec_hf_bcc')
+            r.ev('oracle_evals')
+            if [t for t in res if is_final(t)] != ['OK'] or len(requests) != n + 1:
+                r.bad('hfp/codec/bcc-outcome/ag', f'AT+BCC answered {res}, {len(requests) - n} codec_connection_request events; {detail()}')
+                break
+            if not judge('hf-requested', False):
+                break
+            continue
+        if kind == 'hf-bcs-unasked':
+            res = await send(f'AT+BCS={cid}')
+            finals = [t for t in res if is_final(t)]
+            r.ev('oracle_evals')
+            if len(finals) != 1:
+                r.bad('at/final-codes/codec/bcs', f'AT+BCS={cid} answered {res}; {detail()}')
+                break
+            if finals == ['OK']:
+                hf_codec[0] = cid
+            if not judge('bcs-without-selection/answered-' + finals[0].split(':')[0].lower().replace(' ', '-'), finals == ['OK']):
+                break
+            continue
+        del rx[:]
+        task = asyncio.create_task(guarded(ag.negotiate_codec(hfp.AudioCodec(cid))))
+        await rg.quiesce()
+        sel = split_results(rx)
+        r.ev('oracle_evals')
+        if [t.replace(' ', '') for t in sel] != [f'+BCS:{cid}']:
+            r.bad('hfp/codec/ag-selection-line', f'negotiate_codec({codec_name(cid)}) wrote {sel}; {detail()}')
+            task.cancel()
+            break
+        completed = False
+        if reply in ('confirm', 'other-id', 'invalid-id'):
+            other = [c for c in hf_codecs if c != cid]
+            echo = cid if reply == 'confirm' or (reply == 'other-id' and not other) else rng.choice(other) if reply == 'other-id' else rng.choice([0, 9, 255])
+            res = await send(f'AT+BCS={echo}')
+            finals = [t for t in res if is_final(t)]
+            r.ev('oracle_evals')
+            if len(finals) != 1:
+                r.bad('at/final-codes/codec/bcs', f'AT+BCS={echo} answered {res}; {detail()}')
+                task.cancel()
+                break
+            if finals == ['OK']:
+                hf_codec[0], completed = echo, True
+            step_cls = f'{reply}/answered-' + finals[0].split(':')[0].lower().replace(' ', '-')
+            r.ev('codec_bcs_' + ('ok' if completed else 'refused_by_ag'))
+        elif reply == 'bac':
+            keep = [c for c in hf_codecs if c != cid] or [1]
+            res = await send('AT+BAC=' + ','.join(map(str, keep)))
+            r.ev('codec_bac_renegotiations')
+            r.ev('oracle_evals')
+            if [t for t in res if is_final(t)] != ['OK'] or [int(c) for c in ag.supported_audio_codecs] != keep:
+                r.bad('hfp/codec/bac-renegotiation/ag', f'AT+BAC={keep} answered {res}; the AG now lists '
+                      f'{[int(c) for c in ag.supported_audio_codecs]}; {detail()}')
+                task.cancel()
+                break
+            hf_codecs = keep
+            step_cls = 'hf-readvertised-codecs'
+        else:
+            await asyncio.sleep(3.0)
+            await rg.quiesce()
+            r.ev('codec_bcs_unanswered_by_hf')
+            step_cls = 'selection-unanswered'
+        r.ev('oracle_evals')
+        if completed and reply == 'confirm':
+            if not task.done():
+                await rg.quiesce()
+            r.ev('codec_negotiate_codec_calls_after_abandoned_one', 1 if abandoned else 0)
+            if not task.done() or task.result()[0] != 'ok':
+                r.bad('hfp/codec/negotiate-codec-does-not-return/'
+                      + ('after-abandoned-selection' if abandoned else 'no-earlier-abandoned-selection'),
+                      f'negotiate_codec({codec_name(cid)}) after the HF confirmed with AT+BCS={cid} and got OK: '
+                      f'{task.result() if task.done() else "still pending"}; {detail()}')
+            abandoned = False
+        if not task.done():
+            task.cancel()       # the application gives up on a selection that was not confirmed
+            abandoned = True
+        if not judge(step_cls, completed):
+            break
+    for where, e in rg.exceptions:
+        r.bad('slc/exception-in-stack', f'{where}: {e}; {detail()}')
+    r.sig('codec', 'ag', tuple(steps), tuple(hf_codecs))
+    r.sched.add(rg.schedule_signature)
+    r.evals()
+    r.sample = {'kind': 'codec', 'mode': 'ag-vs-scripted-hf', 'steps': history}
+
+
+async def codec_both_real(case, r: R, rng):
+    """HfProtocol and AgProtocol back to back; the gateway APPLICATION refuses some confirmations (its _on_bcs answers
+    ERROR, as a gateway whose call went away would) or the HF cannot use the selected codec."""
+    from bumble import hfp
+    cfg = gen_hfp(rng, rng.randrange(64) | 0x03)
+    for k in ('hf_features', 'ag_features'):
+        cfg[k] = list(dict.fromkeys(cfg[k] + ['CODEC']))
+    cfg['hf_codecs'] = rng.choice([[1, 2], [2, 1], [1, 2, 3], [2]])
+    cfg['ag_codecs'] = [1, 2, 3]
+    cfg['chld'] = cfg['chld'] or ['1']
+    cfg['ag_hf_indicators'] = cfg['ag_hf_indicators'] or [1]
+    rg, s, cd, sd, info = await hfp_link(case, rng, r)
+    hf_conf, ag_conf = build_hfp_configs(cfg)
+    hf_on_client = rng.random() < 0.6
+    hf = hfp.HfProtocol(cd if hf_on_client else sd, hf_conf)
+    ag = hfp.AgProtocol(sd if hf_on_client else cd, ag_conf)
+    mon = AtMonitor()
+    tap_ag(ag, mon)
+    hf_events, ag_events = [], []
+    hf.on('codec_negotiation', lambda c: hf_events.append(int(c)))
+    ag.on('codec_negotiation', lambda c: ag_events.append(int(c)))
+    try:
+        how, e = await vloop.vwait(guarded(hf.initiate_slc()))
+    except vloop.Hang:
+        r.bad('slc/hang', f'initiate_slc pending at T_v; cfg={cfg}')
+        return
+    if how != 'ok':
+        r.bad('slc/raised/other', f'initiate_slc raised {type(e).__name__}: {e}; cfg={cfg}')
+        return
+    r.ev('slc_runs')
+    run_task = asyncio.create_task(hf.run())
+    usable = cfg['hf_codecs']
+    unusable = [c for c in (1, 2, 3) if c not in usable]
+    real_on_bcs = ag._on_bcs
+    refusing = [None]
+
+    def on_bcs(codec):
+        if refusing[0] == 'error':
+            ag.send_error()
+        elif refusing[0] == 'cme':
+            ag.send_cme_error(hfp.CmeError.OPERATION_NOT_ALLOWED)
+        elif refusing[0] == 'silent':
+            pass
+        else:
+            real_on_bcs(codec)
+    ag._on_bcs = on_bcs
+    steps = []
+    for _ in range(rng.randint(2, 5)):
+        c = rng.random()
+        if c < 0.6:
+            steps.append(('select', rng.choice(usable), rng.choice(['ok', 'error', 'cme', 'silent'])))
+        elif c < 0.8 and unusable:
+            steps.append(('select-unusable', rng.choice(unusable), 'ok'))
+        else:
+            steps.append(('hf-bcc', rng.choice(usable), 'ok'))
+    steps.append(('select', rng.choice(usable), 'ok'))
+    history = []
+    expected = [1]
+    abandoned = False
+
+    def detail():
+        return f'steps so far {history}; HF codecs {usable}; cfg={cfg}; link={info}'
+
+    for kind, cid, answer in steps:
+        del hf_events[:], ag_events[:]
+        history.append((kind, codec_name(cid), answer))
+        r.ev('codec_steps')
+        r.ev(f'codec_step_{kind}')
+        g0 = len(mon.groups())
+        refusing[0] = None if answer == 'ok' else answer
+        completed = kind != 'select-unusable' and answer == 'ok'
+        if kind == 'hf-bcc':
+            r.ev('codec_hf_bcc')
+            ag.once('codec_connection_request', lambda cid=cid: asyncio.create_task(guarded(ag.negotiate_codec(hfp.AudioCodec(cid)))))
+            try:
+                how, val = await vloop.vwait(guarded(hf.setup_audio_connection()))
+            except vloop.Hang:
+                r.bad('hfp/codec/hang/setup_audio_connection', f'pending at T_v; {detail()}')
+                break
+            if how != 'ok':
+                r.bad('hfp/codec/bcc-outcome/bcc-answered-ok', f'setup_audio_connection raised {val!r}; {detail()}')
+                break
+            task = None
+        else:
+            task = asyncio.create_task(guarded(ag.negotiate_codec(hfp.AudioCodec(cid))))
+        await rg.quiesce()
+        if answer == 'silent':
+            await asyncio.sleep(3.0)
+            await rg.quiesce()
+        if task is not None:
+            if completed:
+                r.ev('codec_negotiate_codec_calls_after_abandoned_one', 1 if abandoned else 0)
+                if not task.done() or task.result()[0] != 'ok':
+                    r.bad('hfp/codec/negotiate-codec-does-not-return/'
+                          + ('after-abandoned-selection' if abandoned else 'no-earlier-abandoned-selection'),
+                          f'negotiate_codec({codec_name(cid)}) although the HF confirmed and the AG answered OK: '
+                          f'{task.result() if task.done() else "still pending"}; {detail()}')
+                abandoned = False
+            if not task.done():
+                task.cancel()   # the application gives up on a selection that was not confirmed
+                abandoned = True
+        if completed:
+            expected[0] = cid
+        r.ev('codec_bcs_' + ('ok' if completed else 'refused_or_unusable'))
+        if kind == 'select':
+            r.ev('codec_real_hf_confirmation_' + ('answered_ok' if answer == 'ok' else 'unanswered' if answer == 'silent' else 'refused'))
+        cls = {'select': ANSWER_CLASS.get(answer, answer), 'select-unusable': 'unusable-codec-selected',
+               'hf-bcc': 'hf-requested/bcc-answered-ok'}[kind]
+        r.ev('codec_agreement_checks')
+        r.ev('oracle_evals', 3)
+        lines = [x for g in mon.groups()[g0:] for x in g[0]]
+        if int(hf.active_codec) != int(ag.active_codec) or int(ag.active_codec) != expected[0]:
+            r.bad(f'hfp/codec/disagree/both-real/{cls}',
+                  f'HF active_codec={codec_name(hf.active_codec)}, AG active_codec={codec_name(ag.active_codec)}, the last '
+                  f'completed set-up was for {codec_name(expected[0])}; the HF sent {lines}; {detail()}')
+            break
+        want = [cid] if completed else []
+        if hf_events != want or ag_events != want:
+            r.bad(f'hfp/codec/event/{"missing" if completed else "for-a-set-up-that-did-not-complete"}/both-real/{cls}',
+                  f'codec_negotiation events: HF {hf_events}, AG {ag_events}, expected {want} on both; {detail()}')
+            break
+        if kind == 'select-unusable':
+            r.ev('codec_bac_renegotiations')
+            if [int(c) for c in ag.supported_audio_codecs] != usable or lines != ['AT+BAC=' + ','.join(map(str, usable))]:
+                r.bad('hfp/codec/bac-renegotiation/both-real', f'the HF sent {lines}; the AG lists '
+                      f'{[int(c) for c in ag.supported_audio_codecs]}; {detail()}')
+                break
+    hf.unsolicited_queue.put_nowait(None)
+    try:
+        await vloop.vwait(guarded(run_task))
+    except vloop.Hang:
+        r.bad('hfp/codec/hang/hf-run-loop', f'HfProtocol.run did not end; {detail()}')
+    for lines, rsps in mon.groups():
+        n = sum(1 for t in rsps if is_final(t))
+        r.ev('at_lines_checked', len(lines))
+        r.ev('oracle_evals')
+        silent_bcs = [l for l in lines if l.startswith('AT+BCS=')] and any(a == 'silent' for _k, _c, a in history)
+        if n != len(lines) and not silent_bcs:
+            cmd = lines[0].split('=')[0].split('?')[0] if lines else '(none)'
+            r.bad(f'at/final-codes/{"none" if n == 0 else "multiple" if n > len(lines) else "too-few"}/codec/{cmd}',
+                  f'AG answered {lines} with {rsps}; {detail()}')
+    r.sig('codec', 'b2b', tuple(steps), tuple(usable))
+    r.sched.add(rg.schedule_signature)
+    r.evals()
+    r.sample = {'kind': 'codec', 'mode': 'both-real', 'steps': history}
+
+
+async def codec(case, r: R):
+    rng = random.Random(case['seed'] ^ 0xC0DEC)
+    mode = case['idx'] % 3
+    r.ev(('codec_runs_hf_vs_scripted_ag', 'codec_runs_ag_vs_scripted_hf', 'codec_runs_both_real')[mode])
+    await (codec_hf_vs_scripted_ag, codec_ag_vs_scripted_hf, codec_both_real)[mode](case, r, rng)
+
+
+KINDS = {'xfer': xfer, 'life': life, 'refuse': refuse, 'slc': slc, 'agraw': agraw, 'hfraw': hfraw, 'codec': codec}
 
 
 async def run_case(case, r: R):
@@ -1565,7 +2103,10 @@ LEVEL_TEXT = ('Stream equality at every DLC sink, an independent RFCOMM wire che
               'initiate_slc against '
               'AgProtocol for all 64 settings of the six feature bits it branches on x boundary lists, with the negotiated '
               'values predicted from the configurations by the check; one-final-result-code monitor on the AG DLC during '
-              'every SLC and for ~130 hand-written command lines (every command, nominal / one more / one fewer / empty '
+              'every SLC and for ~130 hand-written command lines; ~650 (quick) codec connection set-up steps after an SLC with a '
+              'scripted AG, a scripted HF, or a refusing gateway application (confirmation answered OK / ERROR / +CME ERROR / '
+              'never / after the time-out, unusable codec -> AT+BAC, AT+BCC) with both sides required to hold the same active '
+              'codec and codec_negotiation emitted only for completed set-ups; (every command, nominal / one more / one fewer / empty '
               'parameters / pipelined / after a non-command line). Held = no refuting execution among those observed; '
               'sampling, not proof.')
 LEVEL_NOTE = ('Trusted: vlib/ref_rfcomm.py (parser, CRC table checked against the SABM/UA frames every session starts with, '
